@@ -32,7 +32,7 @@ ASSUMPTIONS = [
     'pint factors and MW are data dumped at run time; the driver checks nonzero factors, MW>0 and '
     'factor(u→u\') = f(u\')/f(u) (hypothesis monitors)',
     'ThermalCondition.in_equilibrium (|ΔT|,|ΔP| < 1e-12) is modelled as equality',
-    'the model is written to the repaired behaviour of fixes_proposed/C11-1..4',
+    'the model mirrors /repo with fixes C11-1..4 and the C12/C13 copy_like / unlink / phases-setter repairs applied',
     'arithmetic: model exact (Rat), implementation binary64; compared with rtol 1e-9 / atol 1e-12',
     'not generated: phase-view streams ms[phase], proxies, linking multi-phase streams with different phase sets or '
     'streams of different packages by flow, _expand_phases on a data object shared with another stream, '
@@ -332,19 +332,11 @@ def run_ops(ops):
             if s is not o:
                 if is_multi(o) and len(o.phases) < 2: return
                 if is_multi(s) and w.shared_data(s): return
-                if is_multi(s) and not is_multi(o) and o.phase not in s._imol._phase_indexer:
-                    return   # MaterialIndexer.copy_like raises UndefinedPhase here (stale local phase indexer)
                 if s.chemicals is not o.chemicals:
                     have = set(s.chemicals.CASs)
                     for r in mol_rows(o):
                         if any(x and cas not in have for x, cas in zip(r, o.chemicals.CASs)): return
-            try:
-                s.copy_like(o)
-            except tmo.exceptions.UndefinedPhase:
-                if not is_multi(s) and is_multi(o):      # `self.phases = other.phases` rejected, nothing changed
-                    emit(f'copylike {sid} {oid} {mat(mol_rows(s))}', 'err UndefinedPhase')
-                    return
-                raise
+            s.copy_like(o)
             mark_change(sid, 'copylike')
             emit(f'copylike {sid} {oid} {mat(mol_rows(s))}', shape_ans(s))
         elif op == 'thermo':
@@ -383,8 +375,7 @@ def run_ops(ops):
             if any(i.chemicals is not s.chemicals for i in ins): return
             if is_multi(s):
                 others = ''.join(sorted({ph for i in ins for ph in phases_of(i)}))
-                if any(ph not in s._imol._phase_indexer for ph in others):
-                    return   # MaterialIndexer.mix_from raises KeyError here (stale local phase tuple after _expand_phases)
+                if any(ph not in s._imol._phase_indexer for ph in others) and w.shared_data(s): return
                 s.mix_from(ins, energy_balance=False)
                 mark_change(sid, 'mix')
                 emit(f'mixinto {sid} {others} {frac(s.P)} {mat(mol_rows(s))}', shape_ans(s))
@@ -792,6 +783,10 @@ def corpus():
         # fixes_proposed/C11-3: _expand_phases keeps the cached views of the old rows
         Case(['newm 0 gl 298.15 101325.0 0,2,0,0|1,0,0,0', 'newm 0 Lgl 298.15 101325.0 0,0,0,3|0,0,0,0|1,0,0,0', 'obs 0',
               'copylike 0 1', 'obs 0'], {'witness': 'C11-3'}),
+        # _expand_phases through mix_from and through copy_like from a single-phase stream
+        Case(['newm 0 gl 298.15 101325.0 0,2,0,0|1,0,0,0', 'new1 0 s 298.15 101325.0 0,0,0,3', 'new1 0 l 298.15 101325.0 1,0,0,0',
+              'obs 0', 'mix 0 1 2', 'obs 0', 'new1 0 L 320.0 101325.0 0,1,0,3', 'copylike 0 3', 'obs 0']),
+        Case(['new1 0 s 298.15 101325.0 1,0,0,3', 'newm 0 Ll 298.15 101325.0 0,2,0,0|1,0,0,0', 'obs 0', 'copylike 0 1', 'obs 0']),
         # fixes_proposed/C11-4: a reaction of another package on a multi-phase stream
         Case(['newm 0 gl 298.15 101325.0 0,2,0,0|1,2,0,0', 'obs 0', 'react 0 mol', 'obs 0', 'react 0 wt', 'obs 0'],
              {'witness': 'C11-4'}),
